@@ -234,4 +234,56 @@ theorem keyOrderOn_keyed {S : Schema} (hS : schemaOK S = true) : KeyOrderOn S (k
     obtain ⟨_, _, _, _, h5⟩ := key hy hy' hs' (hs ▸ hso)
     rw [h1, h1', h5.1 hsame]
 
+/-! ### well-formed trees: the keys are there, so only the values have to be canonical -/
+
+/-- key and leaf-list values are canonical (nothing about the presence of keys) -/
+def canonOK (S : Schema) (x : DNode) : Bool :=
+  !S.isSorted x.sid ||
+    (if S.isKind x.sid .leaflist then canonV (S.ty x.sid) x.val else canonPairs S (keyPairs (keysOf S x.kids)))
+
+/-- every list-key value and every value of a system-ordered leaf-list in the tree, at any depth, is a canonical value of its
+type — what `lyd_value` stores; `decide`-able on a concrete tree -/
+def canonT (S : Schema) (A : List DNode) : Bool := allPL (canonOK S) A
+
+mutual
+theorem allPN_of_subnodes {P : DNode → Bool} : ∀ r, (∀ x ∈ subnodes r, P x = true) → allPN P r = true
+  | .inner s f m ks, h => by
+    simp only [allPN, Bool.and_eq_true]
+    exact ⟨h _ (by simp [subnodes]), allPL_of_subnodes ks (fun x hx => h x (by simp [subnodes, hx]))⟩
+  | .term s f m v, h => by
+    simp only [allPN]
+    exact h _ (by simp [subnodes])
+theorem allPL_of_subnodes {P : DNode → Bool} : ∀ l, (∀ x ∈ subnodesL l, P x = true) → allPL P l = true
+  | [], _ => rfl
+  | r :: rs, h => by
+    simp only [allPL, Bool.and_eq_true]
+    exact ⟨allPN_of_subnodes r (fun x hx => h x (by simp [subnodesL, hx])),
+      allPL_of_subnodes rs (fun x hx => h x (by simp [subnodesL, hx]))⟩
+end
+
+theorem keyedOK_of_wf {S : Schema} {x : DNode} (hw : wfNode S x = true) (hc : canonOK S x = true) : keyedOK S x = true := by
+  unfold keyedOK
+  unfold canonOK at hc
+  cases hso : S.isSorted x.sid with
+  | false => rfl
+  | true =>
+    simp only [hso, Bool.not_true, Bool.false_or] at hc ⊢
+    rcases isSorted_cases S x.sid hso with ⟨hll, _⟩ | ⟨hl, hnll, _⟩
+    · simpa only [hll, ↓reduceIte] using hc
+    · simp only [hnll, Bool.false_eq_true, ↓reduceIte, Bool.and_eq_true, beq_iff_eq] at hc ⊢
+      refine ⟨?_, hc⟩
+      have hin : S.isInner x.sid = true := by simp [Schema.isInner, hl]
+      obtain ⟨f, m, ks, hxe⟩ := inner_of_shape S x (wfNode_shape S x hw) hin
+      rw [hxe] at hw
+      have := (wfNode_inner S _ f m ks hw).keysSids hl
+      rw [keyPairs_fst]
+      rw [hxe]
+      exact this
+
+/-- in a well-formed tree (C06 `wfForest`: list instances carry their keys) with canonical values every node is `keyedOK` -/
+theorem keyedT_of_wf {S : Schema} {A : List DNode} (hA : wfForest S A = true) (hc : canonT S A = true) :
+    allPL (keyedOK S) A = true := by
+  simp only [wfForest, Bool.and_eq_true] at hA
+  exact allPL_of_subnodes A fun x hx => keyedOK_of_wf (mem_subnodesL_wf S A hA.1.1 x hx) (allPL_subnodes A hc x hx)
+
 end LyModel.Diff.K13
